@@ -563,9 +563,9 @@ ExpBlock(e, master, b, net, account, start, end) ==
   LET apath == <<HSmall(PurposeNum(b)), HSmall(CoinOf(net)), HSmall(account)>>
       acct == K32!DerivePath(e, master, apath)
       chain == K32!DerivePath(e, master, apath \o <<Zeros(4)>>)
-      \* start / end are 5-byte big-endian numbers (2^31 does not fit a TLC integer); at most 8 rows per event
+      \* start / end are 5-byte big-endian numbers (2^31 does not fit a TLC integer); at most 32 rows per event (the driver never asks for more)
       cand(j) == AddC(start, FromNat(j - 1, 5))[2]
-      nrows == Cardinality({j \in 1..8 : Less(cand(j), end)})
+      nrows == Cardinality({j \in 1..32 : Less(cand(j), end)})
       rowOf(j) == LET i4 == Drop(cand(j), 1)
                       c == K32!CKD(e, chain.node, i4)
                   IN << Format(TRUE, apath \o <<Zeros(4), i4>>), AD!Addr(e, PurposeKind(b), c.node.K, net),
